@@ -1,6 +1,6 @@
 //! Independent x86-64 interpreter for the handful of instructions a patch may consist of.
 //! Written from the Intel SDM encodings; shares no code with injectorpp.
-//!   E9 rel32                      jmp rel32
+//!   E9 rel32 / EB rel8            jmp rel32 / jmp rel8
 //!   REX.W(B) B8+r imm64           mov r64, imm64        (any register)
 //!   [41] FF E0+r                  jmp r64               (any register)
 //!   REX.W(B) C7 C0+r imm32        mov r64, sign-extended imm32
@@ -138,6 +138,12 @@ fn exec_insn(cpu: &mut Cpu, base: u64, b: &[u8; sim::RLEN], o: usize) -> (usize,
         let rel = at32(b, o + 1) as i32 as i64 as u64;
         cpu.pc = base.wrapping_add(o as u64).wrapping_add(5).wrapping_add(rel);
         return (5, true);
+    }
+    if b0 == 0xEB {
+        // jmp rel8
+        let rel = b1 as i8 as i64 as u64;
+        cpu.pc = base.wrapping_add(o as u64).wrapping_add(2).wrapping_add(rel);
+        return (2, true);
     }
     if b0 == 0xC3 {
         cpu.pc = cpu.ret_addr;
